@@ -152,6 +152,7 @@ func vpCheckWireState(c *PaletteContainer[BlocksState], model []BlocksState, use
 	n, err := c.WriteTo(&w)
 	vp.Assert(err == nil && n == int64(w.Len()), "WriteTo count")
 	wire := append([]byte{}, w.Bytes()...)
+	vp.Observe("wire", wire)
 	vals, usedBytes, ok := vpRefContainer(wire, len(model), 0, block.BitsPerBlock)
 	vp.Assert(ok, "wire form accepted by the independent reader")
 	vp.Assert(usedBytes == len(wire), "independent reader consumes the whole encoding")
@@ -352,6 +353,72 @@ func VP_C12_reload_mutate() {
 		vp.Assert(dst.Get(j) == v, "Set after reload stores the value")
 	} else {
 		vp.Assert(dst.Get(j) == want, "Set after reload leaves other positions alone")
+	}
+	vp.Cover("end")
+}
+
+// big palettes (hash palette widths 7 and 8, and the 8-bit -> direct upgrade):
+// containers constructed in-package with 128 / 200 / 256 distinct concrete ids
+// (saved data cannot express these widths at small lengths), positions and the
+// new value symbolic.
+func VP_C12_big_palette() {
+	const L = 64
+	npal := []int{128, 200, 256}[vp.Choice(3)]
+	bits := 7
+	if npal > 128 {
+		bits = 8
+	}
+	hp := &hashPalette[BlocksState]{bits: bits, ids: map[BlocksState]int{}, values: make([]BlocksState, 0, 1<<uint(bits))}
+	for i := 0; i < npal; i++ {
+		v := BlocksState(5 + 3*i)
+		hp.ids[v] = i
+		hp.values = append(hp.values, v)
+	}
+	data := NewBitStorage(bits, L, nil)
+	model := make([]BlocksState, L)
+	for i := 0; i < L; i++ {
+		k := (i*37 + 11) % npal
+		if i == 0 {
+			k = 0 // position 0 holds palette entry 0
+		}
+		data.Set(i, k)
+		model[i] = hp.values[k]
+	}
+	c := &PaletteContainer[BlocksState]{bits: bits, config: statesCfg{}, palette: hp, data: data}
+	j := vpIndex(L)
+	var want BlocksState
+	for i := 0; i < L; i++ {
+		if i == j {
+			want = model[i]
+		}
+	}
+	vp.Assert(c.Get(j) == want, "Get == array model")
+	// wire form accepted by the independent reader, read back into a fresh container
+	var w bytes.Buffer
+	n, err := c.WriteTo(&w)
+	vp.Assert(err == nil && n == int64(w.Len()), "WriteTo count")
+	wire := append([]byte{}, w.Bytes()...)
+	vals, used, ok := vpRefContainer(wire, L, 0, block.BitsPerBlock)
+	vp.Assert(ok && used == len(wire), "wire form accepted by the independent reader")
+	if ok {
+		for i := 0; i < L; i++ {
+			vp.Assert(vals[i] == int(model[i]), "wire form decodes to the array model")
+		}
+	}
+	vp.SizeBound(300)
+	d := NewStatesPaletteContainer(L, 0)
+	r := bytes.NewReader(wire)
+	_, err = d.ReadFrom(r)
+	vp.Assert(err == nil && r.Len() == 0, "ReadFrom consumes exactly the bytes written")
+	vp.Assert(d.Get(j) == want, "position preserved over the wire")
+	// one more distinct value: append (npal < capacity) or upgrade to the next width / direct ids
+	nv := BlocksState(vpMaxState - 1 - vp.Choice(2))
+	at := vpIndex(L)
+	c.Set(at, nv)
+	if j == at {
+		vp.Assert(c.Get(j) == nv, "new value stored")
+	} else {
+		vp.Assert(c.Get(j) == want, "other positions preserved across the upgrade")
 	}
 	vp.Cover("end")
 }
